@@ -708,13 +708,26 @@ ctl_exchange(void)
 			nng_msg_free(m);
 			return ("app-send");
 		}
-		// the request may have gone to another (hostile) pipe first: REQ resends, so keep reading
-		if (ctl_recv(&rp, &rl) != 0) {
-			return ("ctl-did-not-get-request");
-		}
-		if (rl != 12 || memcmp(rp + 4, tag, 8) != 0) {
+		// an earlier request may have gone to a hostile pipe that had completed a valid handshake (REQ may
+		// pick any connected peer) and been resent to the control peer when that pipe went away: skip
+		// requests that carry an OLDER control tag
+		for (;;) {
+			uint64_t seq = 0;
+			if (ctl_recv(&rp, &rl) != 0) {
+				return ("ctl-did-not-get-request");
+			}
+			if (rl == 12 && memcmp(rp + 4, tag, 8) == 0) {
+				break;
+			}
+			if (rl == 12) {
+				for (int i = 0; i < 8; i++) {
+					seq = (seq << 8) | rp[4 + i];
+				}
+			}
 			free(rp);
-			return ("ctl-got-wrong-request");
+			if (rl != 12 || (seq >> 48) != 0xC7A0 || (seq & 0xffffffffffffull) >= ctl_seq) {
+				return ("ctl-got-wrong-request");
+			}
 		}
 		memcpy(id, rp, 4);
 		free(rp);
@@ -1000,6 +1013,12 @@ cmd_sess(char **w, int nw)
 	} else {
 		if (mode == 'i') {
 			ctl = ctl_held ? ctl_exchange() : NULL;
+			// REQ may hand the request to ANY connected peer, and this session is one as soon as its
+			// handshake was valid: the control peer not seeing the request while the session is still
+			// connected is allowed; the exchange after the session has gone decides
+			if (ctl != NULL && proto == P_REQ && strcmp(ctl, "ctl-did-not-get-request") == 0) {
+				ctl = NULL;
+			}
 		}
 		shutdown(fd, SHUT_WR);
 		eof = drain_until_eof(fd, keep, sizeof(keep), &kept, TMO);
